@@ -7,8 +7,20 @@ def check(ctx):
     ok = check_property_proofs(ctx, "C01")
     if not ok:
         ctx.violation("proof obligation for C01 no longer checks", {"broken": [n for n, o, _ in ctx.obligations if not o]}, found_input=False)
-    gencore.v1(ctx, 300 if ctx.tier == "quick" else 3000)
+    gencore.v1(ctx, 300 if ctx.tier == "quick" else 3000, which=("opt", "raw"))
     gencore.analyze(ctx, ctx.tier, "offset")
+    # the same statement for inputs that are sub-ranges (Span / Position): the runtime on every catalogue shape of the misc / uni /
+    # stack families x every sub-input vs the full-backtracking reference (which knows the range's bounds), parse and check path
+    from .. import core, rtcat
+    envs, run = core.core_run(ctx.tier)
+
+    def t3_ref(sid, f, x, a):
+        got = rtcat.p_core(f["P"])
+        if got != a:
+            return "parse gives %s but PEG semantics (reference interpreter) gives %s" % (got[:160], (a or "")[:160])
+        return rtcat.c_vs_ref(f["C"], a)
+    core.scan(ctx, envs, run, ("misc", "uni", "stack"), t3_ref, lambda sid, f, a: f["_form"] != "str" and f["P"].startswith("ok@"),
+              "typed parser differs from PEG semantics on a sub-input")
     ctx.rule = ("V1: real generator output == Model/Translate.v for the fixed corpus + seeded random grammars (no rustc). Derive corpus: "
                 "hand-written, kind-nesting and random grammars (all rule kinds, every operator incl. counted repetition, insensitive, "
                 "ranges, built-ins, unicode properties, stack operations, WHITESPACE/COMMENT in all combinations) compiled through "
